@@ -179,7 +179,29 @@ func runSolver(s solverDef, script string, timeout time.Duration) (out string, m
 	return buf.String(), float64(time.Since(t0).Microseconds()) / 1000
 }
 
-func scriptText(env *Env, items []Item, upto int, s solverDef, timeoutS int, standalone bool) (string, []int) {
+// modelTerms: terms whose values are requested from a candidate model (function inputs).
+func (fx *FnCtx) modelTerms() []string {
+	var ts []string
+	for _, prm := range fx.fn.Params {
+		n := "p_" + sanitize(prm.Name())
+		switch fx.env.sortOf(prm.Type()) {
+		case "Int", "Bool":
+			ts = append(ts, n)
+		case "Str":
+			ts = append(ts, "(slen "+n+")")
+			for i := 0; i < 12; i++ {
+				ts = append(ts, fmt.Sprintf("(sat %s %d)", n, i))
+			}
+		case "Slice":
+			ts = append(ts, "(sl.len "+n+")", "(sl.cap "+n+")")
+		case "Ref":
+			ts = append(ts, "(= "+n+" nil)")
+		}
+	}
+	return ts
+}
+
+func scriptText(env *Env, items []Item, upto int, s solverDef, timeoutS int, standalone bool, gv ...string) (string, []int) {
 	var sb strings.Builder
 	if s.name == "cvc5" {
 		sb.WriteString("(set-option :produce-models true)\n")
@@ -217,6 +239,9 @@ func scriptText(env *Env, items []Item, upto int, s solverDef, timeoutS int, sta
 		} else {
 			sb.WriteString("(push 1)\n(assert (not " + it.Ob.Formula + "))\n(check-sat)\n")
 			if standalone {
+				if len(gv) > 0 && s.name != "cvc5" {
+					sb.WriteString("(echo \"@@values\")\n(get-value (" + strings.Join(gv, " ") + "))\n(echo \"@@endvalues\")\n")
+				}
 				sb.WriteString("(get-model)\n")
 			}
 			sb.WriteString("(pop 1)\n(assert " + it.Ob.Formula + ")\n")
@@ -418,7 +443,7 @@ func (v *Verifier) standalone(fx *FnCtx, sc *Script, n, i int, record func(*Obli
 	for _, s := range solvers {
 		s := s
 		go func() {
-			text, _ := scriptText(fx.env, sc.Items, i, s, v.timeout, true)
+			text, _ := scriptText(fx.env, sc.Items, i, s, v.timeout, true, fx.modelTerms()...)
 			out, ms := runSolver(s, text, time.Duration(v.timeout+5)*time.Second)
 			v.stat(s.name, ms)
 			a := parseAnswers(out)[i]
@@ -445,7 +470,11 @@ func (v *Verifier) standalone(fx *FnCtx, sc *Script, n, i int, record func(*Obli
 			okBy, okMs = r.name, r.ms
 		}
 		if (r.ans == "sat" || r.ans == "unknown") && model == "" && strings.HasPrefix(r.name, "z3") {
-			if k := strings.Index(r.out, "(model"); k >= 0 {
+			if k := strings.Index(r.out, "@@values"); k >= 0 {
+				if e := strings.Index(r.out, "@@endvalues"); e > k {
+					model = r.out[k : e+11]
+				}
+			} else if k := strings.Index(r.out, "(model"); k >= 0 {
 				model = r.out[k:]
 			} else if k := strings.Index(r.out, "(\n  (define-fun"); k >= 0 {
 				model = r.out[k:]
